@@ -361,3 +361,38 @@ func PathTo(root ast.Node, target ast.Node) []ast.Node {
 	})
 	return found
 }
+
+// CanonVar follows single-definition copies `v := w` (w a plain variable) to
+// the variable the value was first bound to: aliases of one map or pointer
+// introduced by parameter passing in a flattened view compare equal.
+func CanonVar(info *types.Info, body ast.Node, v *types.Var) *types.Var {
+	for i := 0; i < 8 && v != nil && !v.IsField(); i++ {
+		d, ok := SingleDef(info, body, v)
+		if !ok || d.Index >= 0 || (d.Kind != "define" && d.Kind != "var" && d.Kind != "assign") {
+			return v
+		}
+		id, ok := ast.Unparen(d.Rhs).(*ast.Ident)
+		if !ok {
+			return v
+		}
+		w, ok := info.ObjectOf(id).(*types.Var)
+		if !ok || w.IsField() || w == v {
+			return v
+		}
+		// the source must itself never be re-assigned, or the copy is a snapshot of one of its values
+		if ds := DefsOf(info, body, w); len(ds) > 1 {
+			return v
+		}
+		v = w
+	}
+	return v
+}
+
+// CanonVarOf: CanonVar of the variable an expression names (nil if it names none).
+func CanonVarOf(info *types.Info, body ast.Node, e ast.Expr) *types.Var {
+	v := VarOf(info, e)
+	if v == nil {
+		return nil
+	}
+	return CanonVar(info, body, v)
+}
